@@ -767,6 +767,6 @@ func init() {
 		Run:            c03Run,
 		Replay:         c03Replay,
 		QuickBudget:    170 * time.Second,
-		ThoroughBudget: 25 * time.Minute,
+		ThoroughBudget: 15 * time.Minute,
 	})
 }
